@@ -7,6 +7,7 @@ import (
 	"sort"
 	"strconv"
 	"strings"
+	"time"
 	"unsafe"
 
 	"verifharness/hx"
@@ -86,6 +87,7 @@ type shrinkW struct {
 	ref      map[int]int // abstract model: a plain map
 	rebuilt  bool
 	readBack bool
+	dead     bool // a re-entrant callback hung: the instance is abandoned
 }
 
 func newShrink(f []string) world {
@@ -98,13 +100,58 @@ func (w *shrinkW) deletedKeys() int {
 	return int(reflect.ValueOf(w.m).Elem().FieldByName("deletedKeys").Int())
 }
 
+// state: the deletion counter and the length of the Go map (both read by reflection).
+func (w *shrinkW) state() string {
+	if w.dead {
+		return "dead"
+	}
+
+	return fmt.Sprintf("d%d n%d", w.deletedKeys(), reflect.ValueOf(w.m).Elem().FieldByName("m").Len())
+}
+
+// scribble overwrites a slice the container handed out (and the spare capacity behind it): what a
+// caller may legally do with its own copy.  If the container handed out its own storage, the next
+// state / observation shows it.
+func scribble(l []int) {
+	for i := range l {
+		l[i] = -777
+	}
+	l = l[:cap(l)]
+	for i := range l {
+		l[i] = -777
+	}
+}
+
+// guarded runs f (which re-enters the container from a callback) under a watchdog: a container that
+// still holds its lock while it calls back hangs there.
+func guarded(f func()) (finished bool) {
+	done := make(chan string, 1)
+	go func() { done <- hx.Safely(f) }()
+	select {
+	case p := <-done:
+		if p != "" {
+			panic(p)
+		}
+
+		return true
+	case <-time.After(20 * time.Second):
+		return false
+	}
+}
+
 func (w *shrinkW) exec(r *hx.Run, f []string) (string, string) {
 	line := strings.Join(f, " ")
 	bad := func(what string, got, want any) {
 		fail(r, "shrink", f[0], "plain-map", fmt.Sprintf("%s: %s = %v, a plain map gives %v (model %v)", line, what, got, want, w.ref))
 	}
+	if w.dead {
+		return line, "dead"
+	}
 	before := w.deletedKeys()
 	defer func() {
+		if w.dead {
+			return
+		}
 		if w.deletedKeys() < before && f[0] != "clear" && f[0] != "shrink" {
 			w.rebuilt = true
 		} else if w.rebuilt && (f[0] == "get" || f[0] == "asmap" || f[0] == "keys" || f[0] == "foreach" || f[0] == "values") {
@@ -133,8 +180,12 @@ func (w *shrinkW) exec(r *hx.Run, f []string) (string, string) {
 		return line, optVal(v, ok)
 	case "goc":
 		k, d := atoi(f[1]), atoi(f[2])
-		v, created := w.m.GetOrCreate(k, func() int { return d })
+		calls := 0
+		v, created := w.m.GetOrCreate(k, func() int { calls++; return d })
 		rv, had := w.ref[k]
+		if (calls != 0) != !had || calls > 1 {
+			bad("calls of the default-value function", calls, map[bool]int{true: 0, false: 1}[had])
+		}
 		if !had {
 			w.ref[k] = d
 			rv = d
@@ -146,7 +197,13 @@ func (w *shrinkW) exec(r *hx.Run, f []string) (string, string) {
 		return line, fmt.Sprintf("%d %t", v, created)
 	case "compute":
 		k, d := atoi(f[1]), atoi(f[2])
+		calls := 0
+		curRef, hadRef := w.ref[k]
 		v := w.m.Compute(k, func(cur int, exists bool) int {
+			calls++
+			if exists != hadRef || (exists && cur != curRef) || (!exists && cur != 0) {
+				bad("arguments of the update function", fmt.Sprint(cur, exists), fmt.Sprint(curRef, hadRef))
+			}
 			if exists {
 				return cur + d
 			}
@@ -162,6 +219,9 @@ func (w *shrinkW) exec(r *hx.Run, f []string) (string, string) {
 		w.ref[k] = rv
 		if v != rv {
 			bad("Compute", v, rv)
+		}
+		if calls != 1 {
+			bad("calls of the update function", calls, 1)
 		}
 
 		return line, strconv.Itoa(v)
@@ -179,8 +239,12 @@ func (w *shrinkW) exec(r *hx.Run, f []string) (string, string) {
 		_, had := w.ref[k]
 		if f[0] == "delif" {
 			c := f[2] == "true"
-			b = w.m.Delete(k, func() bool { return c })
+			calls := 0
+			b = w.m.Delete(k, func() bool { calls++; return c }, func() bool { calls += 100; return true })
 			had = had && c
+			if calls != 1 {
+				bad("calls of the delete condition (only the first condition counts, once)", calls, 1)
+			}
 		} else {
 			b = w.m.Delete(k)
 		}
@@ -225,7 +289,9 @@ func (w *shrinkW) exec(r *hx.Run, f []string) (string, string) {
 		} else {
 			w.m.ForEachKey(func(k int) bool { keys = append(keys, k); return true })
 		}
+		raw := keys
 		keys = sortedCopy(keys)
+		scribble(raw)
 		want := make([]int, 0)
 		for k := range w.ref {
 			want = append(want, k)
@@ -237,7 +303,9 @@ func (w *shrinkW) exec(r *hx.Run, f []string) (string, string) {
 
 		return line, showInts(keys)
 	case "values":
-		vals := sortedCopy(w.m.Values())
+		rawVals := w.m.Values()
+		vals := sortedCopy(rawVals)
+		scribble(rawVals)
 		want := make([]int, 0)
 		for _, v := range w.ref {
 			want = append(want, v)
@@ -282,6 +350,95 @@ func (w *shrinkW) exec(r *hx.Run, f []string) (string, string) {
 		}
 		if showPairs(got) != showPairs(w.ref) {
 			bad(f[0], showPairs(got), showPairs(w.ref))
+		}
+		ans := showPairs(got)
+		for k := range got { // the caller owns the returned map
+			got[k] = -777
+		}
+		got[-5] = -777
+
+		return line, ans
+	case "foreachn", "foreachkeyn":
+		// the callback stops the iteration after n visits (it is always called once on a non-empty map)
+		n := atoi(f[1])
+		seen := map[int]bool{}
+		visits := 0
+		visit := func(k int) bool {
+			visits++
+			if _, had := w.ref[k]; !had || seen[k] {
+				bad(f[0], k, "a key of the map, visited once")
+			}
+			seen[k] = true
+
+			return visits < n
+		}
+		if f[0] == "foreachn" {
+			w.m.ForEach(func(k, v int) bool {
+				if w.ref[k] != v {
+					bad("foreachn", fmt.Sprint(k, ":", v), "a binding of the map")
+				}
+
+				return visit(k)
+			})
+		} else {
+			w.m.ForEachKey(visit)
+		}
+		want := n
+		if want < 1 {
+			want = 1
+		}
+		if len(w.ref) < want {
+			want = len(w.ref)
+		}
+		if visits != want {
+			bad(f[0]+" visits", visits, want)
+		}
+
+		return line, strconv.Itoa(visits)
+	case "foreachdel", "foreachkeydel":
+		// the first callback deletes every key (the iteration runs over a snapshot taken under the lock, so
+		// every key of the snapshot is still visited); re-entering the map from the callback is legal
+		snapshot := map[int]int{}
+		var order []int
+		for k, v := range w.ref {
+			snapshot[k] = v
+			order = append(order, k)
+		}
+		sort.Ints(order)
+		got := map[int]int{}
+		first := true
+		visit := func(k, v int) bool {
+			if first {
+				first = false
+				for _, d := range order {
+					if !w.m.Delete(d) {
+						bad(f[0], "Delete("+strconv.Itoa(d)+") from the callback = false", true)
+					}
+				}
+			}
+			got[k] = v
+
+			return true
+		}
+		finished := guarded(func() {
+			if f[0] == "foreachdel" {
+				w.m.ForEach(visit)
+			} else {
+				w.m.ForEachKey(func(k int) bool { return visit(k, snapshot[k]) })
+			}
+		})
+		if !finished {
+			w.dead = true
+			fail(r, "shrink", f[0], "hang", fmt.Sprintf("%s: deleting from inside the callback did not return within 20 s (model %v)", line, w.ref))
+
+			return line, "hang"
+		}
+		w.ref = map[int]int{}
+		if showPairs(got) != showPairs(snapshot) {
+			bad(f[0], showPairs(got), showPairs(snapshot))
+		}
+		if f[0] == "foreachkeydel" {
+			return line, showInts(sortedCopy(order))
 		}
 
 		return line, showPairs(got)
@@ -359,14 +516,18 @@ func genShrink(rng *hx.Rng, n int) []string {
 			op = "size"
 		case x < 86:
 			op = "isempty"
-		case x < 89:
+		case x < 88:
 			op = "asmap"
-		case x < 91:
+		case x < 90:
 			op = "foreach"
-		case x < 92:
+		case x < 91:
 			op = "clear"
-		case x < 94:
+		case x < 93:
 			op = "shrink"
+		case x < 95:
+			op = fmt.Sprintf("%s %d", hx.Pick(rng, []string{"foreachn", "foreachkeyn"}), rng.Intn(5))
+		case x < 97:
+			op = hx.Pick(rng, []string{"foreachdel", "foreachkeydel"})
 		default:
 			op = "deleted"
 		}
@@ -403,6 +564,22 @@ func (w *rmapW) keyIndex(k int) (int, bool) {
 	}
 
 	return int(res[0].Elem().FieldByName("keyIndex").Int()), true
+}
+
+// state: the dense key slice as it is (its own length, not Size()), the back-index of each of its
+// keys, the size and the deletion counter of the inner ShrinkingMap.
+func (w *rmapW) state() string {
+	rm := reflect.ValueOf(w.m).Elem()
+	ks := rm.FieldByName("keys")
+	keys := make([]int, ks.Len())
+	idx := make([]string, ks.Len())
+	for i := range keys {
+		keys[i] = int(ks.Index(i).Int())
+		idx[i] = optVal(w.keyIndex(keys[i]))
+	}
+	inner := rm.FieldByName("rawMap").Elem()
+
+	return fmt.Sprintf("k%s i[%s] n%d d%d", showInts(keys), strings.Join(idx, " "), inner.FieldByName("m").Len(), inner.FieldByName("deletedKeys").Int())
 }
 
 func (w *rmapW) refValues() []int {
@@ -489,6 +666,8 @@ func (w *rmapW) exec(r *hx.Run, f []string) (string, string) {
 		if len(keys) != len(w.ref) {
 			bad("keys", "len(Keys)", len(keys), len(w.ref))
 		}
+		ans := showInts(keys)
+		defer scribble(keys) // the caller owns the returned slice
 		// index invariant (white-box): the entry of keys[i] points back at i
 		for i, k := range keys {
 			if idx, ok := w.keyIndex(k); !ok || idx != i {
@@ -496,10 +675,12 @@ func (w *rmapW) exec(r *hx.Run, f []string) (string, string) {
 			}
 		}
 
-		return line, showInts(keys)
+		return line, ans
 	case "values", "foreach":
 		if f[0] == "values" {
-			vals := sortedCopy(w.m.Values())
+			rawVals := w.m.Values()
+			vals := sortedCopy(rawVals)
+			scribble(rawVals)
 			if showInts(vals) != showInts(w.refValues()) {
 				bad("plain-map", "Values", vals, w.refValues())
 			}
@@ -513,6 +694,31 @@ func (w *rmapW) exec(r *hx.Run, f []string) (string, string) {
 		}
 
 		return line, showPairs(got)
+	case "foreachn":
+		n := atoi(f[1])
+		seen := map[int]bool{}
+		visits := 0
+		w.m.ForEach(func(k, v int) bool {
+			visits++
+			if rv, had := w.ref[k]; !had || seen[k] || rv != v {
+				bad("plain-map", "ForEach visit", fmt.Sprint(k, ":", v), "a binding of the map, visited once")
+			}
+			seen[k] = true
+
+			return visits < n
+		})
+		want := n
+		if want < 1 {
+			want = 1
+		}
+		if len(w.ref) < want {
+			want = len(w.ref)
+		}
+		if visits != want {
+			bad("plain-map", "ForEach visits", visits, want)
+		}
+
+		return line, strconv.Itoa(visits)
 	case "index":
 		idx, ok := w.keyIndex(atoi(f[1]))
 
@@ -574,6 +780,7 @@ func (w *rmapW) exec(r *hx.Run, f []string) (string, string) {
 		for _, v := range sorted {
 			l += " " + strconv.Itoa(v)
 		}
+		scribble(vals)
 
 		return l, fmt.Sprintf("ok %d", len(vals))
 	}
@@ -606,8 +813,10 @@ func genRMap(rng *hx.Rng, n int) []string {
 			op = "keys"
 		case x < 73:
 			op = "values"
-		case x < 76:
+		case x < 75:
 			op = "foreach"
+		case x < 77:
+			op = fmt.Sprintf("foreachn %d", rng.Intn(5))
 		case x < 80:
 			op = fmt.Sprintf("index %d", k)
 		case x < 86:
